@@ -20,6 +20,16 @@ class Thrown(Unknown):
 
 
 class Evaluator:
+    def note_null(self, text):
+        """a member access through a pointer that folded to 0: remembered on the outermost evaluator, because the Unknown
+        raised for it may be absorbed by an enclosing assignment (x = p->f only forgets x)"""
+        r = self
+        while getattr(r, "_parent", None) is not None:
+            r = r._parent
+        if not hasattr(r, "null_derefs"):
+            r.null_derefs = []
+        r.null_derefs.append("%s in %s" % (text, self.f.qn))
+
     def __init__(self, prog, f, env=None, calls=None):
         self.prog = prog
         self.f = f
@@ -135,6 +145,7 @@ class Evaluator:
                     v = pv_            # (the base is folded once: it may be a call)
                     if isinstance(v, int):
                         if v == 0:
+                            self.note_null(render(f, n))
                             raise Unknown("null dereference: %s" % render(f, n))
                         return "@%d.%s" % (v, n["name"])
                     if isinstance(v, str):
@@ -469,6 +480,7 @@ class Evaluator:
                             pv = self.ev(on_)
                             if isinstance(pv, int) and getattr(self, "heap_mode", False):
                                 if pv == 0:
+                                    self.note_null(render(f, n))
                                     raise Unknown("null dereference: %s" % render(f, n))
                                 prefix = "@%d." % pv
                             elif isinstance(pv, tuple):
